@@ -228,7 +228,7 @@ BASE: dict = {}
 # ------------------------------------------------------------------------------------------- Sphinx schedules
 
 
-def sphinx_project(R):
+def sphinx_project(R, math_front=False):
     files = {}
     names = []
     nd = R.randint(7, 12)
@@ -270,6 +270,12 @@ def sphinx_project(R):
     files["z_obs2.md"] += "\n[W](wiki:W) [X](wiki:X){.own}\n"
     for nm in names[1:]:
         files[nm + ".md"] += "\n[W](wiki:W)\n"
+    if math_front:
+        # the math extensions enabled per document (front matter) instead of for the project
+        conf["myst_enable_extensions"] = [e for e in conf["myst_enable_extensions"] if e not in ("dollarmath", "amsmath")]
+        for k, nm in enumerate(names):
+            if k % 2:
+                files[nm + ".md"] = "---\nmyst:\n  enable_extensions: [dollarmath, amsmath, substitution, attrs_inline, strikethrough]\n---\n" + files[nm + ".md"]
     return files, conf
 
 
@@ -310,7 +316,8 @@ def sphinx_build(files, conf, parallel, delay_seed):
             html = open(p, encoding="utf8").read() if os.path.exists(p) else ""
             body = html.split('<div class="body" role="main">')[-1].split('<div class="sphinxsidebar"')[0]
             tree = UUID.sub("UUID", b.doctree(dn).pformat().replace(b.src, "SRC"))
-            out[dn] = (hashlib.sha1(UUID.sub("UUID", body).encode()).hexdigest(), tree)
+            head = html.split('<div class="body" role="main">')[0]  # scripts and settings written into the page head (e.g. the MathJax configuration)
+            out[dn] = (hashlib.sha1(UUID.sub("UUID", body).encode()).hexdigest(), tree, hashlib.sha1(UUID.sub("UUID", head).encode()).hexdigest())
         warns = sorted(UUID.sub("UUID", re.sub(r"\x1b\[[0-9;]*m", "", l)) for l in b.norm_warnings().splitlines() if l.strip())
         return out, warns, merges
     finally:
@@ -320,7 +327,7 @@ def sphinx_build(files, conf, parallel, delay_seed):
 
 def eval_sphinx(ctx, case):
     R = random.Random(case["seed"])
-    files, conf = sphinx_project(R)
+    files, conf = sphinx_project(R, math_front=bool(case.get("math_front")))
     try:
         base, wbase, _ = sphinx_build(files, conf, 1, 0)
     except Exception as e:  # noqa: BLE001
@@ -341,6 +348,9 @@ def eval_sphinx(ctx, case):
         ctx.count("merge_events_logged", len(merges))
         diff_docs = [d for d in base if out.get(d, (None, None))[0] != base[d][0]]
         diff_trees = [d for d in base if out.get(d, (None, None))[1] != base[d][1]]
+        diff_heads = [d for d in base if out.get(d, (None, None, None))[2] != base[d][2]]
+        if diff_heads and not (diff_docs or diff_trees):
+            ctx.violation("schedule:page-head-differs", f"-j{par} (delay seed {dseed}): the <head> of pages {sorted(diff_heads)[:5]} (scripts, MathJax configuration, ...) differs from the serial build", case, {"merge_order": merges[:6]})
         if diff_docs or diff_trees:
             d0 = (diff_trees or diff_docs)[0]
             import difflib
@@ -403,7 +413,7 @@ def run_shard(ctx):
             break
     ns = 1 if quick else 40
     for i in range(ns):
-        case = {"kind": "sphinx", "seed": R.getrandbits(40), "schedules": [[2, 0], [4, R.randint(1, 999)]] if quick else [[2, 0], [4, R.randint(1, 999)], [4, R.randint(1, 999)], [8, R.randint(1, 999)]]}
+        case = {"kind": "sphinx", "seed": R.getrandbits(40), "math_front": (ctx.shard + i) % 2 == 1, "schedules": [[2, 0], [4, R.randint(1, 999)]] if quick else [[2, 0], [4, R.randint(1, 999)], [4, R.randint(1, 999)], [8, R.randint(1, 999)]]}
         eval_case(ctx, case)
         ctx.case(("sphinx", case["seed"], repr(case["schedules"])), True)
         if i == 0:
